@@ -18,7 +18,7 @@ Record dump := mkDump {
 
 Inductive cop :=
 | CAdd (id st : N) | CRemove (id : N) | CRemoveDesc (id : N) | CCommit (id : N) | CHeader (hs : list N)
-| CSet (id st : N) | CLimit (m : N) | CExpire (c : N) | CDetach (id : N) | CRbf (id rate : N).
+| CSet (id st : N) | CLimit (m : N) | CExpire (c : N) (order : list N) | CDetach (id : N) | CRbf (id rate : N).
 
 Record hist_case := mkHist {
   hc_max_anc : N;
@@ -84,7 +84,10 @@ Definition cstep (txs : list tx) (p : pool) (c : cop) : option (pool * list N) :
   | CHeader hs => option_map (fun p' => (p', [])) (resolve_conflict_header_dep p hs)
   | CSet id st => option_map (fun p' => (p', [])) (set_entry p id (num_st st))
   | CLimit m => option_map (fun p' => (p', [])) (limit_size p m)
-  | CExpire c => option_map (fun p' => (p', [])) (remove_expired p c)
+  (* remove_expired walks the entries in the container's iteration order, which the
+     harness reports; the model checks that these are exactly the expired entries *)
+  | CExpire c order => if set_eqb order (expired_ids p c)
+                       then option_map (fun p' => (p', [])) (remove_entries p order) else None
   | CDetach id => option_map (fun p' => (p', [])) (remove_by_detached_proposal p id)
   | CRbf id rate => match tx_by_id txs id with
                     | Some t => Some (p, match check_rbf p on_chain t rate with
